@@ -108,11 +108,12 @@ def build_model_driver():
     srcs = [os.path.join(COQ, 'gen/Extracted.v'), os.path.join(COQ, 'extract/Extract.v'), os.path.join(VERIF, 'ocaml/driver.ml')]
     srcs += [os.path.join(COQ, 'model', f) for f in os.listdir(os.path.join(COQ, 'model')) if f.endswith('.v')]
     srcs += [os.path.join(COQ, 'spec', f) for f in os.listdir(os.path.join(COQ, 'spec')) if f.endswith('.v')]
+    srcs += [os.path.join(COQ, 'proofs/ClassifyProofs.v'), os.path.join(COQ, 'proofs/TableProofs.v')]
     dig = file_hash(srcs)
     exe = os.path.join(BUILD, 'mdriver')
     if stamp_ok('driver', dig) and os.path.exists(exe):
         return
-    rc, out = build_coq(['model/Sys.vo', 'spec/Spec.vo'])
+    rc, out = build_coq(['model/Sys.vo', 'spec/Spec.vo', 'proofs/ClassifyProofs.vo'])
     if rc != 0: raise BuildError('model does not compile against the regenerated facts', out)
     ml = os.path.join(BUILD, 'ml'); os.makedirs(ml, exist_ok=True)
     rc, out = sh(['coqc'] + coq_flags() + ['-o', os.path.join(ml, 'Extract.vo'), os.path.join(COQ, 'extract/Extract.v')], cwd=ml)
